@@ -281,7 +281,14 @@ def run_placement_case(scheme, cid, cfg, db, acc, rng):
     acc.count("slot_map_comparisons." + short)
     differing = sum(1 for w in m1 if m1[w] != m2.get(w))
     acc.count("keywords_with_different_slots", differing)
-    if m1 == m2:
+    if scheme == "DP17.Pi":
+        # the bucket choice is what must move between setups; in-bucket offsets are judged by the order statistic
+        b1 = {w: tuple((n, i) for (n, i, _) in v) for w, v in m1.items()}
+        b2 = {w: tuple((n, i) for (n, i, _) in v) for w, v in m2.items()}
+        same = b1 == b2
+    else:
+        same = m1 == m2
+    if same:
         acc.violation(f"{short}:placement-repeats",
                       f"{scheme}: two setups of one database ({PLACEMENT[scheme]}) put all {nslots} array-resident "
                       f"blocks of all {len(m1)} keywords at identical positions", case)
